@@ -199,13 +199,17 @@ def run(ctx):
             if "exception" in obs:
                 ctx.oracle_fail("restart-raised:" + cls, "restart", a, obs, req, text)
                 continue
-            if obs["gauge_differs"] and obs["only_density_matrix"] and obs["uninterrupted"] == obs["restarted"]:
-                # the listed finding: fresh eigh sign at the restart point.  Everything else must still agree:
-                ctx.oracle_fail("restart-fresh-gauge", "restart", a, obs, req, text)
+            if obs["gauge_differs"]:
+                # the listed finding: a fresh eigh sign at the restart point. It first shows in the density matrix and, once the
+                # electronic state feeds back (hop probabilities, mean-field force), in everything else. The discriminator is the
+                # re-run with the tracked electronics handed to restart(): with the gauge continued EVERYTHING must agree exactly;
+                # only then is the difference attributed to the finding
                 a2 = dict(a, repair_gauge=True)
                 ok2, obs2, req2, text2 = oracle_restart(a2)
                 ctx.count("restart_rechecked_in_tracked_gauge")
-                if not ok2:
+                if ok2:
+                    ctx.oracle_fail("restart-fresh-gauge", "restart", a, obs, req, text)
+                else:
                     ctx.oracle_fail("restart:" + cls, "restart", a2, obs2, req2, text2)
             elif obs["uninterrupted"] != obs["restarted"] and spec["rule"] == "max_steps" and obs["restarted"] == obs["uninterrupted"] - 1:
                 ctx.oracle_fail("restart-step-counter", "restart", a, obs, req, text)
